@@ -1351,6 +1351,146 @@ fn gen_order_case(rng: &mut Rng) -> HistCase {
     HistCase { rules, ops }
 }
 
+// ------------------------------------------------------------------------------------------
+// Part D: firing order of the closure-driven engines (their "agenda" is the per-pass list of
+// matching rules): descending salience, the rule added earlier first among equals.
+
+#[derive(Clone, Debug)]
+struct FlatOrderCase {
+    entry: String,
+    /// (salience, matches)
+    rules: Vec<(i32, bool)>,
+}
+
+impl FlatOrderCase {
+    fn to_json(&self) -> Json {
+        json!({"kind": "flat-order", "entry": self.entry, "rules": self.rules.iter().map(|(s, m)| json!([s, m])).collect::<Vec<_>>()})
+    }
+    fn from_json(j: &Json) -> Option<FlatOrderCase> {
+        Some(FlatOrderCase {
+            entry: j.get("entry")?.as_str()?.to_string(),
+            rules: j.get("rules")?.as_array()?.iter().map(|r| Some((r.get(0)?.as_i64()? as i32, r.get(1)?.as_bool()?))).collect::<Option<Vec<_>>>()?,
+        })
+    }
+}
+
+fn gen_flat_order_case(rng: &mut Rng) -> FlatOrderCase {
+    let entry = rng.pick(&["ReteUlEngine::fire_all", "fire_rete_ul_rules_with_agenda"]).to_string();
+    // mostly more rules than a small-slice sort path handles (20), up to 80
+    let n = if rng.chance(1, 3) { 1 + rng.below(20) } else { 21 + rng.below(60) };
+    let pool: &[i32] = match rng.below(4) {
+        0 => &[0, 1, 2],
+        1 => &[5, 5, 5, 7],
+        2 => &[-3, 0, 0, 10, 10, 100],
+        _ => &[1, 2, 3, 4, 5, 6, 7, 8],
+    };
+    let rules = (0..n).map(|_| (*rng.pick(pool), !rng.chance(1, 6))).collect();
+    FlatOrderCase { entry, rules }
+}
+
+/// The order in which the (all no-loop, fact-preserving) rules ran in ONE call.
+fn run_flat_order(c: &FlatOrderCase) -> Vec<usize> {
+    let log: Arc<std::sync::Mutex<Vec<usize>>> = Arc::new(std::sync::Mutex::new(Vec::new()));
+    let node = |m: bool| ReteUlNode::UlAlpha(AlphaNode { field: "T.on".into(), operator: "==".into(), value: if m { "true".into() } else { "false".into() } });
+    let mut facts: HashMap<String, String> = HashMap::new();
+    facts.insert("T.on".into(), "true".into());
+    if c.entry == "ReteUlEngine::fire_all" {
+        let mut engine = ReteUlEngine::new();
+        for (i, (sal, m)) in c.rules.iter().enumerate() {
+            let l = log.clone();
+            engine.add_rule_with_action(format!("r{:02}", i), node(*m), *sal, true, move |_f| l.lock().unwrap().push(i));
+        }
+        for (k, v) in &facts {
+            engine.set_fact(k.clone(), v.clone());
+        }
+        let _ = engine.fire_all();
+    } else {
+        let mut rules: Vec<ReteUlRule> = c
+            .rules
+            .iter()
+            .enumerate()
+            .map(|(i, (sal, m))| {
+                let l = log.clone();
+                ReteUlRule { name: format!("r{:02}", i), node: node(*m), priority: *sal, no_loop: true, action: Arc::new(move |_f: &mut HashMap<String, String>| l.lock().unwrap().push(i)) }
+            })
+            .collect();
+        let _ = fire_rete_ul_rules_with_agenda(&mut rules, &mut facts);
+    }
+    let v = log.lock().unwrap().clone();
+    v
+}
+
+fn judge_flat_order(c: &FlatOrderCase, got: &[usize]) -> Option<Viol> {
+    let mut want: Vec<usize> = (0..c.rules.len()).filter(|i| c.rules[*i].1).collect();
+    want.sort_by_key(|i| std::cmp::Reverse(c.rules[*i].0)); // stable: insertion order among equals
+    if got == want.as_slice() {
+        return None;
+    }
+    let mut gs = got.to_vec();
+    let mut ws = want.clone();
+    gs.sort();
+    ws.sort();
+    let (clause, cause) = if gs != ws {
+        ("fires-each-matching-no-loop-rule-once", "set-of-fired-rules-differs")
+    } else if got.windows(2).any(|w| c.rules[w[0]].0 < c.rules[w[1]].0) {
+        ("order", "lower-salience-before-higher")
+    } else {
+        ("order", "later-added-rule-first-among-equal-salience")
+    };
+    let first = got.iter().zip(want.iter()).position(|(a, b)| a != b).unwrap_or(got.len().min(want.len()));
+    Some(Viol {
+        clause: format!("flat-{}", clause),
+        cause: format!("{}|{}", c.entry, cause),
+        detail: format!(
+            "{} with {} rules (all no-loop, actions leave the facts alone): rules ran in the order {:?}; descending salience with the rule added earlier first among equals is {:?} (first difference at position {}; saliences {:?})",
+            c.entry,
+            c.rules.len(),
+            got,
+            want,
+            first,
+            c.rules.iter().map(|r| r.0).collect::<Vec<_>>()
+        ),
+    })
+}
+
+fn check_flat_order(c: &FlatOrderCase, st: &mut Stats) {
+    st.eval();
+    st.count("flat_order::cases");
+    st.max("max::flat_order::rules_in_one_pass", c.rules.len() as u64);
+    let got = match pan::catch_frames(|| run_flat_order(c)) {
+        Ok(g) => g,
+        Err(p) => {
+            st.violation(Violation { clause: "no-panic".into(), sig: mk_sig("no-panic", &format!("{}|{}", p.class(), p.frame)), detail: format!("panic: {}", p.msg), case: c.to_json() });
+            return;
+        }
+    };
+    st.add("flat_order::rule_executions_observed", got.len() as u64);
+    let ties = got.windows(2).filter(|w| c.rules[w[0]].0 == c.rules[w[1]].0).count();
+    st.add("flat_order::adjacent_equal_salience_pairs_observed", ties as u64);
+    if ties > 0 && got.windows(2).any(|w| c.rules[w[0]].0 != c.rules[w[1]].0) {
+        st.nontrivial(hash_of(&c.to_json().to_string()));
+    }
+    if let Some(v) = judge_flat_order(c, &got) {
+        // shrink: drop rules while the same cause fails
+        let mut cur = c.clone();
+        let mut i = 0;
+        while i < cur.rules.len() {
+            let mut cand = cur.clone();
+            cand.rules.remove(i);
+            let ok = pan::catch_frames(|| run_flat_order(&cand)).ok().and_then(|g| judge_flat_order(&cand, &g)).map(|x| x.cause == v.cause).unwrap_or(false);
+            if ok {
+                cur = cand;
+            } else {
+                i += 1;
+            }
+        }
+        let g = pan::catch_frames(|| run_flat_order(&cur)).unwrap_or_default();
+        if let Some(v2) = judge_flat_order(&cur, &g) {
+            st.violation(Violation { clause: v2.clause.clone(), sig: mk_sig(&v2.clause, &v2.cause), detail: v2.detail.clone(), case: cur.to_json() });
+        }
+    }
+}
+
 // ==========================================================================================
 
 struct C07;
@@ -1360,7 +1500,7 @@ impl Check for C07 {
         ID
     }
     fn rule(&self) -> String {
-        "Part A (agenda, API level): sequences over add_activation (rules r0..r4, even-numbered rules are no-loop; 3 salience values incl. ties and i32 extremes; agenda groups MAIN/G1/G2; activation groups none/X/Y; lock-on-active, auto_focus activations and a ruleflow group RF (activate / deactivate ops; an activation of an inactive ruleflow group is not queued; queued members of a group switched off later are not judged) in a quarter of the sequences each; creation instants forced strictly increasing; in some sequences activations are created first and added later in another order) / get_next_activation (with or without mark_rule_fired, also marking earlier-returned ones) / set_focus / reset_fired_flags / clear, checked against a shadow multiset with a limbo set: EXHAUSTIVE for every sequence of the stated length over a 21-symbol alphabet (16 adds = 2 rules x 2 saliences x 2 agenda groups x {no activation group, X}; pop; pop+mark; focus MAIN; focus G1; reset), random for lengths 4..64. Part B (termination): generated programs (always-true rules without no-loop, self-re-activating increments, counters to K in {3,50,150,1500}, ping-pong pairs, 3-cycles, fact-map-erasing actions, random rule sets with modifying actions) for each of IncrementalEngine::fire_all, TypedReteUlEngine::fire_all, ReteUlEngine::fire_all, fire_rete_ul_rules, fire_rete_ul_rules_with_agenda, run in child processes; the action closures count executions per call and unwind after 100 x 1000 x #rules. Part C: IncrementalEngine histories of the C06 generator (no-loop at most once between resets; <= 1000 actions per fire_all) and single-type Log-only no-loop programs with up to 6 salience levels (first fire_all fires in non-increasing salience). Non-trivial: an agenda sequence in which at least one pop chose among several eligible activations and at least one ineligible activation was passed over; a termination program that executed at least one action; an order history whose first fire_all fired rules of at least two salience levels.".into()
+        "Part A (agenda, API level): sequences over add_activation (rules r0..r4, even-numbered rules are no-loop; 3 salience values incl. ties and i32 extremes; agenda groups MAIN/G1/G2; activation groups none/X/Y; lock-on-active, auto_focus activations and a ruleflow group RF (activate / deactivate ops; an activation of an inactive ruleflow group is not queued; queued members of a group switched off later are not judged) in a quarter of the sequences each; creation instants forced strictly increasing; in some sequences activations are created first and added later in another order) / get_next_activation (with or without mark_rule_fired, also marking earlier-returned ones) / set_focus / reset_fired_flags / clear, checked against a shadow multiset with a limbo set: EXHAUSTIVE for every sequence of the stated length over a 21-symbol alphabet (16 adds = 2 rules x 2 saliences x 2 agenda groups x {no activation group, X}; pop; pop+mark; focus MAIN; focus G1; reset), random for lengths 4..64. Part B (termination): generated programs (always-true rules without no-loop, self-re-activating increments, counters to K in {3,50,150,1500}, ping-pong pairs, 3-cycles, fact-map-erasing actions, random rule sets with modifying actions) for each of IncrementalEngine::fire_all, TypedReteUlEngine::fire_all, ReteUlEngine::fire_all, fire_rete_ul_rules, fire_rete_ul_rules_with_agenda, run in child processes; the action closures count executions per call and unwind after 100 x 1000 x #rules. Part C: IncrementalEngine histories of the C06 generator (no-loop at most once between resets; <= 1000 actions per fire_all) and single-type Log-only no-loop programs with up to 6 salience levels (first fire_all fires in non-increasing salience). Part D (order, closure-driven engines): 1..=80 always-matching or never-matching no-loop rules whose actions leave the facts alone (saliences from small pools with many ties), one call of ReteUlEngine::fire_all / fire_rete_ul_rules_with_agenda: the rules must run in descending salience, the rule added earlier first among equals (their per-pass agenda lists the matching rules in the order they were added). Non-trivial: an agenda sequence in which at least one pop chose among several eligible activations and at least one ineligible activation was passed over; a termination program that executed at least one action; an order history whose first fire_all fired rules of at least two salience levels.".into()
     }
     fn assumptions(&self) -> Vec<String> {
         vec![
@@ -1420,6 +1560,17 @@ impl Check for C07 {
                 }
                 let c = if i % 2 == 0 { gen_order_case(rng) } else { gen_case(rng) };
                 engine_level_check(&c, st);
+            }
+        });
+        // ---- Part D firing order of the closure-driven engines
+        let per_d = cli.n(600, 20_000);
+        shards(cli, nthreads, st, |_shard, rng, st| {
+            for _ in 0..per_d {
+                if cli.expired() {
+                    break;
+                }
+                let c = gen_flat_order_case(rng);
+                check_flat_order(&c, st);
             }
         });
         // ---- observation only: do engine-created activations ever share a creation instant?
@@ -1529,6 +1680,13 @@ impl Check for C07 {
                 }
                 match pan::catch_frames(|| run_agenda(&ops)) {
                     Ok((vs, _)) => vs.iter().map(|x| Violation { clause: x.clause.clone(), sig: mk_sig(&format!("agenda-{}", x.clause), &x.cause), detail: x.detail.clone(), case: case.clone() }).collect(),
+                    Err(p) => vec![Violation { clause: "no-panic".into(), sig: mk_sig("no-panic", &format!("{}|{}", p.class(), p.frame)), detail: format!("panic: {}", p.msg), case: case.clone() }],
+                }
+            }
+            Some("flat-order") => {
+                let Some(c) = FlatOrderCase::from_json(case) else { return vec![bad_case(case)] };
+                match pan::catch_frames(|| run_flat_order(&c)) {
+                    Ok(g) => judge_flat_order(&c, &g).map(|v| vec![Violation { clause: v.clause.clone(), sig: mk_sig(&v.clause, &v.cause), detail: v.detail, case: case.clone() }]).unwrap_or_default(),
                     Err(p) => vec![Violation { clause: "no-panic".into(), sig: mk_sig("no-panic", &format!("{}|{}", p.class(), p.frame)), detail: format!("panic: {}", p.msg), case: case.clone() }],
                 }
             }
